@@ -132,6 +132,9 @@ class _int(metaclass=_IntMeta):
     def __new__(cls, x=0, *a):
         if a:
             return builtins.int(x, *a)
+        if isinstance(x, str) and '\x00N' in x:
+            from . import fmt
+            return fmt.parse_number(x, 'int')
         if isinstance(x, (S, SB)):
             return core.strunc(x)
         if isinstance(x, symnp.A):
@@ -153,6 +156,9 @@ class _float(metaclass=_FloatMeta):
     _sym_builtin = 'float'
 
     def __new__(cls, x=0.0):
+        if isinstance(x, str) and '\x00N' in x:
+            from . import fmt
+            return fmt.parse_number(x, 'float')
         if isinstance(x, (S, SB)):
             return core.sfloat(x)
         if isinstance(x, XR) or hasattr(x, '__logaddexp__'):
